@@ -72,4 +72,38 @@ for pos_line in ("10.1.2.3 rest", "a 10.1.2.3 rest", "a b 10.1.2.3", "10.1.2.3")
     sub = plain[0].split(" ")[1]
     if rep.get("10.1.2.3") != sub or not all(sub in l for l in out):
         fail(violation="width-preserving substitution is not consistent with the substitute issued earlier", line=pos_line, out=out, issued=sub, reported=rep)
+# ---- the mapping PRODUCED FOR THE USER (the RHSM facts file written at the end of a run): every replaced original - including two spellings
+# of one address, which may share a substitute - is paired with the substitute that appears in the output, and nothing else is listed
+import os, tempfile
+facts_dir = tempfile.mkdtemp(prefix="c09b_")
+try:
+    conf6 = InsightsConfig(obfuscate=True, obfuscate_hostname=True, obfuscate_mac=True, obfuscate_ipv6=True)
+    conf6.rhsm_facts_file = os.path.join(facts_dir, "insights-client.facts")
+    SPELL = {"mac": ["fe:ab:04:ff:76:4b", "fe:ab:04:FF:76:4b", "52:54:00:aa:bb:01"], "ipv6": ["2001:db8::1a", "2001:DB8::1A", "fe80::5054:ff:fe12:3456"],
+             "ip": ["10.1.2.3", "10.1.2.4"], "hostname": ["alpha.corp.test", "bravo.corp.test"]}
+    for kinds in (("mac",), ("ipv6",), ("ip", "hostname"), ("mac", "ipv6", "ip", "hostname")):
+        cl = Cleaner(conf6, {}, FQDN)
+        seen = {}
+        for kind in kinds:
+            for o in SPELL[kind]:
+                res = cl.clean_content(["x %s y" % o])[0].split(" ")
+                if len(res) == 3 and res[1] != o:
+                    seen[(kind, o)] = res[1]
+        cl.generate_rhsm_facts()
+        facts = json.load(open(conf6.rhsm_facts_file))
+        n += 1
+        for fk, kind in (("insights_client.obfuscated_mac", "mac"), ("insights_client.obfuscated_ipv6", "ipv6"), ("insights_client.obfuscated_ipv4", "ip"),
+                         ("insights_client.obfuscated_hostname", "hostname")):
+            listed = json.loads(facts[fk])
+            rep = dict((m["original"], m["obfuscated"]) for m in listed)
+            for (k, o), sub_ in seen.items():
+                if k == kind and rep.get(o) != sub_:
+                    fail(violation="the mapping written for the user (RHSM facts) does not pair a replaced original with the substitute in the output",
+                         kind=kind, original=o, output=sub_, reported=rep.get(o), listed=listed)
+            extra = [o for o in rep if (kind, o) not in seen and o not in (FQDN, FQDN.split(".")[0], ".".join(FQDN.split(".")[1:]))]
+            if extra:
+                fail(violation="the mapping written for the user (RHSM facts) lists an original that never occurred", kind=kind, extra=extra)
+finally:
+    import shutil
+    shutil.rmtree(facts_dir, ignore_errors=True)
 print(json.dumps({"ok": True, "max_lines": L, "sequences": n, "line_shapes": len(LINES)}))
